@@ -33,7 +33,11 @@ def foreign():
 
 def cases(rng, tier):
     n = {"quick": 6, "thorough": 60, "search": 40}[tier]
-    return [{"t": "world", "jwt": rng.random() < 0.5, "oidc": rng.random() < 0.7, "seed": rng.getrandbits(40), "nmut": 70 if tier == "quick" else 150} for _ in range(n)]
+    out = [{"t": "world", "jwt": rng.random() < 0.5, "oidc": rng.random() < 0.7, "seed": rng.getrandbits(40), "nmut": 70 if tier == "quick" else 150} for _ in range(n)]
+    # every handler a JWT handler built from ONE specification, ID tokens signed with the algorithm of the JWT handlers
+    out += [{"t": "world", "jwt": "shared", "oidc": True, "seed": rng.getrandbits(40), "nmut": 30 if tier == "quick" else 100}
+            for _ in range({"quick": 1, "thorough": 6, "search": 4}[tier])]
+    return out
 
 
 def _flip(s, i):
@@ -92,6 +96,9 @@ def _probe(R, slot, s):
 def impl(c):
     rng = random.Random(c["seed"])
     R = prov.Runner(c["oidc"], c["jwt"])
+    if c["jwt"]:
+        # ID tokens of client_2 carry the signature algorithm of the JWT token handlers (their default, ES256)
+        R.s.context.cdb["client_2"]["id_token_signed_response_alg"] = "ES256"
     ops, _ = [], None
     # build a world with many live sessions
     for u in prov.USERS:
@@ -142,13 +149,27 @@ def impl(c):
         binding.append(["userinfo", m[0], "client_1", R.resolve_raw("userinfo", m[0])])
         for caller in prov.CLIENTS:
             binding.append(["introspect", m[0], caller, R.resolve_raw("introspect", m[0], caller)])
+    # the resolution layer under the endpoints (SessionManager.get_session_info_by_token with the class slot named): every genuine
+    # token, whatever its state, in every class slot — it is what bearer client authentication and several helpers rely on
+    KEYS = {"authorization_code": "code", "access_token": "access", "refresh_token": "refresh"}
+    smres = []
+    for m in minted:
+        for key in KEYS:
+            try:
+                info = R.sm.get_session_info_by_token(m[0], handler_key=key, grant=True)
+                who = [info["grant"].sub, info["client_id"]]
+            except Exception:
+                who = None
+            smres.append([key, m[0], m[1], m[2], who])
     after = R.projection()
+    STATS["sm_probes"] = STATS.get("sm_probes", 0) + len(smres)
     STATS["probes"] += len(results)
     STATS["honoured"] += sum(1 for r in results if r[3])
     for r in results:
         STATS["by_kind"][r[2]] = STATS["by_kind"].get(r[2], 0) + 1
     STATS["binding_probes"] = STATS.get("binding_probes", 0) + len(binding)
-    return {"minted": minted, "results": results, "state_unchanged": before == after, "binding": binding, "owner": {str(k): v for k, v in owner.items()}}
+    return {"minted": minted, "results": results, "state_unchanged": before == after, "binding": binding, "owner": {str(k): v for k, v in owner.items()},
+            "sm": smres, "sm_keys": KEYS}
 
 
 def model_lines(c, obs):
@@ -197,6 +218,13 @@ def oracle(c, obs):
             if want is None or who[0] != want[0] or (slot == "introspect" and who[1] != want[1]):
                 v.append({"cls": "token-resolves-to-another-session", "slot": slot, "caller_is_owner": bool(want) and caller == want[1]})
                 break
+    for key, s, cls, sess, who in obs.get("sm", []):
+        if who is not None:
+            want = obs["owner"].get(str(sess))
+            if obs["sm_keys"][key] != cls:
+                v.append({"cls": "wrong-class-resolved-by-session-manager", "slot": key, "token_class": cls}); break
+            if want is None or who != want:
+                v.append({"cls": "token-resolves-to-another-session", "slot": "sm:" + key}); break
     if not obs["state_unchanged"]:
         v.append({"cls": "refused-probe-changed-state"})
     return v[:3]
@@ -207,7 +235,7 @@ def known_key(c, v, known):
 
 
 def classify(c, obs):
-    return ("jwt" if c["jwt"] else "opaque") + ":" + ("oidc" if c["oidc"] else "oauth2")
+    return ("jwt-one-spec" if c["jwt"] == "shared" else "jwt" if c["jwt"] else "opaque") + ":" + ("oidc" if c["oidc"] else "oauth2")
 
 
 def nontrivial(c, obs):
@@ -215,4 +243,5 @@ def nontrivial(c, obs):
 
 
 def evidence_extra():
-    return {"probes": STATS["probes"], "probes_honoured": STATS["honoured"], "probes_by_kind": STATS["by_kind"], "binding_probes": STATS.get("binding_probes", 0)}
+    return {"probes": STATS["probes"], "probes_honoured": STATS["honoured"], "probes_by_kind": STATS["by_kind"], "binding_probes": STATS.get("binding_probes", 0),
+            "session_manager_probes": STATS.get("sm_probes", 0)}
